@@ -1,14 +1,14 @@
 #!/bin/bash
 # tools/effcheck.sh <patch.diff>... — for each patch: scratch worktree of /repo, regenerate the effect graph, rebuild
-# GoLucene.Proofs.EffectsCheck; prints OK / BROKEN per patch.  Restores the generated file for the unchanged tree at the end.
+# GoLucene.Proofs.EffectsCheck and EffectsFold; prints OK / BROKEN per patch.  Restores the generated file for the unchanged tree at the end.
 cd "$(dirname "$0")/.."
 for p in "$@"; do
   wt=/tmp/effwt-$$
   git -C /repo worktree add -q --detach $wt HEAD || exit 2
   if git -C $wt apply --whitespace=nowarn "$(readlink -f $p)" 2>/dev/null; then
     if .build/effects $wt lean/GoLucene/Generated/Effects.lean .build/effects-facts.mut.txt 2>/tmp/effcheck.err; then
-      out=$(cd lean && lake build GoLucene.Proofs.EffectsCheck 2>&1)
-      if [ $? = 0 ]; then echo "OK      $p"; else echo "BROKEN  $p  $(diff <(grep ^write .build/effects-facts.txt) <(grep ^write .build/effects-facts.mut.txt) | grep '^[<>]' | head -3 | tr '\n' ';')"; fi
+      out=$(cd lean && lake build GoLucene.Proofs.EffectsCheck GoLucene.Proofs.EffectsFold 2>&1)
+      if [ $? = 0 ]; then echo "OK      $p"; else echo "BROKEN  $p  [$(echo "$out" | grep -o 'EffectsCheck.lean:[0-9]*\|EffectsFold.lean:[0-9]*' | sort -u | tr '\n' ' ')]  $(diff <(grep ^write .build/effects-facts.txt) <(grep ^write .build/effects-facts.mut.txt) | grep '^[<>]' | head -3 | tr '\n' ';')"; fi
     else echo "EXTRACT-FAILED $p $(head -2 /tmp/effcheck.err)"; fi
   else echo "NOAPPLY $p"; fi
   git -C /repo worktree remove --force $wt
